@@ -1555,12 +1555,24 @@ impl<'a> Run<'a> {
                 .and_then(|c| c.task_stash.take())
         });
         if let Some(wk) = wk {
-            w(|x| {
+            let before: u64 = w(|x| {
                 x.ev(|| "external wake of upstream".to_string());
-                x.bracket += 1
+                x.bracket += 1;
+                x.task_wakes.iter().sum()
             });
             wk.wake_by_ref();
-            w(|x| x.bracket -= 1);
+            w(|x| {
+                x.bracket -= 1;
+                // the waker an adapter hands to its upstream must reach the adapter's task
+                let after: u64 = x.task_wakes.iter().sum();
+                if after == before && x.subject_alive {
+                    x.violate(
+                        p(1) | p(10),
+                        "C01/upstream-waker-does-not-wake-task",
+                        "upstream answered Pending and later invoked the waker it was given, but no task waker of the adapter was invoked",
+                    );
+                }
+            });
             drop(wk);
         }
     }
@@ -1940,6 +1952,7 @@ pub fn run_case(case: &Case, trace: bool, alloc_on: bool) -> CaseResult {
 
 fn run_case_inner(case: &Case, trace: bool, alloc_on: bool) -> CaseResult {
     alloc::release_quarantine();
+    let _ = alloc::take_overrun();
     reset_world(trace);
     alloc::reset_depths();
     alloc::set_poison(true);
@@ -2111,6 +2124,13 @@ fn run_case_inner(case: &Case, trace: bool, alloc_on: bool) -> CaseResult {
     // leave nothing behind for the next case on this thread
     reset_world(false);
     alloc::release_quarantine();
+    if let Some((p_, s_, off)) = alloc::take_overrun() {
+        violations.push(Violation {
+            props: p(3) | p(7),
+            sig: "C03/write-past-end-of-allocation".into(),
+            msg: format!("the guard zone behind the {s_}-byte heap block {p_:#x} was overwritten at offset +{off}: something wrote past the end of its allocation"),
+        });
+    }
     CaseResult {
         violations,
         labels,
